@@ -217,6 +217,41 @@ func corrC02(r *Run) {
 					layoutRef(t.ID), layoutRef(t.ID), term, t.ID, seq, coqHex(frame)))
 		}
 	}
+	// (2b) loaded field contents (harness/pdu_corpus.go) against the specification encoder: a sample of the corpus in the kernel,
+	// all of it against the harness's reference encoder
+	for k, it := range corpusPDUs(ts, 1, 0) {
+		hasSkipped := false
+		for j := 0; j < it.t.T.NumField(); j++ {
+			if classify(it.t.T.Field(j).Type) == "FSkipped" {
+				hasSkipped = true
+			}
+		}
+		if hasSkipped {
+			continue
+		}
+		orig := clonePDU(it.p)
+		want, okRef := refEncode(orig, it.t.ID)
+		r.SetReplay(replayValue(orig))
+		_, err, w, panicked, pmsg := marshalRec(it.p)
+		r.Count(it.what, true, "loaded-content")
+		in := "marshal (loaded content " + it.what + ") " + coqValue(orig)
+		switch {
+		case panicked:
+			r.Fail("misstatement/panic", "Marshal panicked", in, pmsg, "a frame")
+		case !okRef:
+		case err != nil || len(w.calls) != 1:
+			r.Fail("layout/loaded-content/"+it.t.Name, "Marshal refused a value the specification layout can express", in, fmt.Sprint(err), hex.EncodeToString(want))
+		case !bytes.Equal(w.calls[0], want):
+			r.Fail("layout/loaded-content/"+it.t.Name, "octets differ from the SMPP v5 layout of this value", in, hex.EncodeToString(w.calls[0]), hex.EncodeToString(want))
+		}
+		if k%300 == int(r.Seed%300) && err == nil && !panicked && len(w.calls) == 1 {
+			seq := uint32(reflect.ValueOf(orig).Elem().Field(0).Interface().(pdu.Header).Sequence)
+			term := coqValue(orig)
+			r.Case("spec layout = Marshal (loaded content) "+it.what,
+				fmt.Sprintf("match lay_params (erase %s) (to_spec %s %s) with Some body => beq_bytes (Spec.Smpp5.spec_frame %d 0 %d body) %s | None => false end",
+					layoutRef(it.t.ID), layoutRef(it.t.ID), term, it.t.ID, seq, coqHex(w.calls[0])))
+		}
+	}
 	// (3) TLVs in any order / destinations interleaved
 	nd := r.N(300, 5000)
 	for i := 0; i < nd; i++ {
